@@ -119,6 +119,18 @@ def _sentinels() -> dict[str, Any]:
     S["softmax_scaled"] = lambda x: jax.nn.softmax(x * C)
     S["gelu_tanh"] = lambda x: jax.nn.gelu(x, approximate=True)
     S["sigmoid_silu"] = lambda x: jax.nn.sigmoid(x) + jax.nn.silu(x * C)
+    S["weak_full"] = lambda x: x + jnp.full((3,), 0.7)
+    S["weak_where_two_scalars"] = lambda x: jnp.where(x > 0.2, 0.7, 0.3) * x
+    S["weak_cond_operand"] = lambda x: lax.cond(jnp.sum(x) > 0, lambda v, c: v * c, lambda v, c: v - c, x, 0.7)
+    S["weak_scan_init"] = lambda x: lax.scan(lambda c, _: (c * 0.5 + 0.1, c), 0.7, None, length=3)[1] + x
+    S["weak_fori_init"] = lambda x: lax.fori_loop(0, 3, lambda i, c: c * 0.3 + 0.1, 0.7) + x
+    S["weak_while_init"] = lambda x: lax.while_loop(lambda s: s[0] < 3, lambda s: (s[0] + 1, s[1] * 0.3 + 0.1), (0, 0.7))[1] + x
+    S["weak_maximum_scalar"] = lambda x: jnp.maximum(x, 0.7) + jnp.minimum(0.3, x)
+    S["weak_clip_and_select"] = lambda x: lax.select(x > 0.1, jnp.full_like(x, 0.7), x) + lax.clamp(0.1, x, 0.7)
+    S["weak_pad_value"] = lambda x: jnp.pad(x, 1, constant_values=0.7)[1:-1] + lax.pad(x, 0.3, [(0, 0, 0)])
+    S["weak_linspace_arange"] = lambda x: x + jnp.linspace(0.1, 0.7, 3) + jnp.arange(0.1, 0.35, 0.1)
+    S["weak_full_in_scan_body"] = lambda x: lax.scan(lambda c, _: (c + jnp.full((3,), 0.7), jnp.where(c > 0, 0.7, 0.3)), x, None, length=2)[1].sum(0)
+    S["weak_mean_of_literals"] = lambda x: x * jnp.mean(jnp.array([0.1, 0.7, 0.3])) + jnp.float_power(jnp.abs(x) + 0.5, 0.7)
     S["full_ones_like"] = lambda x: x + jnp.full((3,), C) + jnp.ones_like(x) * (1.0 / 3.0)
     return S
 
